@@ -1,81 +1,10 @@
-import OxiddModel.Generated.SrcFacts
+import OxiddModel.Generated.ObBdd
+import OxiddModel.Generated.ObBcdd
+import OxiddModel.Generated.ObZbdd
+import OxiddModel.Generated.ObMtbdd
+import OxiddModel.Generated.ObTdd
+import OxiddModel.Generated.ObTbl
+import OxiddModel.Generated.ObGc
 
-/-!
-# Proof obligations over the tables extracted from the Rust source
-
-`SrcFacts.lean` is regenerated from `/repo` on every run; the theorems below are re-checked against
-it. If the source changes so that one of them fails, the proof obligation breaks (and the check
-then searches for a concrete failing input with the harness oracles).
--/
-namespace OxiddModel.Generated
-
-/-- every `Binary(tag, ..)` result of an operator's `terminal_bin` block carries that operator's
-own tag: a result memoised for one operator is never served for another (C06) -/
-def memoOK (rows : List (String × List String)) : Bool :=
-  rows.all fun (op, tags) => !tags.isEmpty && tags.all (· == op)
-
-theorem memo_tag_ok_bdd : memoOK memoTags_bdd = true := by decide
-theorem memo_tag_ok_mtbdd : memoOK memoTags_mtbdd = true := by decide
-theorem memo_tag_ok_tdd : memoOK memoTags_tdd = true := by decide
-
-/-- the operator blocks of `terminal_bin` are exactly the binary operators of the enum, each once -/
-theorem memo_ops_bdd : memoTags_bdd.map (·.1) = (enumBDDOp.drop 1).take 8 := by decide
-theorem memo_ops_mtbdd : memoTags_mtbdd.map (·.1) = enumMTBDDOp.take 6 := by decide
-theorem memo_ops_tdd : memoTags_tdd.map (·.1) = (enumTDDOp.drop 1).take 8 := by decide
-
-/-- the propositional connectives of `BooleanOperator` -/
-def boolOp : String → Option (Bool → Bool → Bool)
-  | "And" => some (· && ·) | "Or" => some (· || ·) | "Xor" => some (· != ·) | "Equiv" => some (· == ·)
-  | "Nand" => some fun a b => !(a && b) | "Nor" => some fun a b => !(a || b)
-  | "Imp" => some fun a b => !a || b | "ImpStrict" => some fun a b => !a && b
-  | _ => none
-
-/-- the kernels `apply_quant` is instantiated with for BCDDs -/
-def kernel : String → Option (Bool → Bool → Bool)
-  | "and" => some (· && ·) | "xor" => some (· != ·) | "nand" => some fun a b => !(a && b)
-  | _ => none
-
-def bools : List Bool := [false, true]
-
-/-- a row of `apply_quant_dispatch` is a Boolean identity:
-`op a b = [¬] kernel ([¬]a) ([¬]b)`, and the quantifier is dualised exactly when the result is negated
-(`Q x. ¬h = ¬ Q̄ x. h` for ∀/∃) -/
-def rowOK (r : Row) : Bool :=
-  match boolOp r.op, kernel r.kernel with
-  | some o, some k =>
-    (bools.all fun a => bools.all fun b => ((k (a != r.negF) (b != r.negG)) != r.negRes) == o a b) &&
-      (r.swapped == r.negRes)
-  | _, _ => false
-
-/-- for `unique` the quantifier is invariant under negating its body (`(¬a) ⊕ (¬b) = a ⊕ b`), so a row
-is correct if the kernel computes the operator or its negation -/
-def rowUniqueOK (r : Row) : Bool :=
-  match boolOp r.op, kernel r.kernel with
-  | some o, some k =>
-    ((bools.all fun a => bools.all fun b => k (a != r.negF) (b != r.negG) == o a b) ||
-     (bools.all fun a => bools.all fun b => k (a != r.negF) (b != r.negG) == !(o a b))) &&
-      !r.swapped && !r.negRes
-  | _, _ => false
-
-def allOps : List String := ["And", "Or", "Xor", "Equiv", "Nand", "Nor", "Imp", "ImpStrict"]
-
-theorem dispatch_rows_ok : dispatchRows.all rowOK = true ∧ dispatchRows.map (·.op) = allOps := by decide
-theorem dispatch_unique_rows_ok :
-    dispatchUniqueRows.all rowUniqueOK = true ∧ dispatchUniqueRows.map (·.op) = allOps := by decide
-
-/-- the operator enums the models were written against (a changed enum invalidates the mapping of
-model operators to cache tags) -/
-theorem enums_as_modelled :
-    (enumBDDOp.drop 1).take 8 = ["And", "Or", "Nand", "Nor", "Xor", "Equiv", "Imp", "ImpStrict"] ∧
-    enumBDDOp.head? = some "Not" ∧ enumBDDOp[9]? = some "Ite" ∧
-    enumMTBDDOp = ["Add", "Sub", "Mul", "Div", "Min", "Max", "Ite", "Restrict"] ∧
-    enumTDDOp = ["Not", "And", "Or", "Nand", "Nor", "Xor", "Equiv", "Imp", "ImpStrict", "Ite"] ∧
-    enumBCDDOp.take 2 = ["And", "Xor"] ∧
-    enumZBDDOp.take 8 = ["Subset0", "Subset1", "Change", "Restrict", "Union", "Intsec", "Diff", "SymmDiff"] := by
-  decide
-
-/-- the hash-table constants the `HashTbl` model uses, and sane GC water marks -/
-theorem constants_as_modelled :
-    tblRatioN = 3 ∧ tblRatioD = 4 ∧ tblMinCap = 16 ∧ gcLwmPercent = 90 ∧ gcHwmPercent = 95 := by decide
-
-end OxiddModel.Generated
+/-! All obligations over the tables extracted from `/repo` (the checks import only the modules of
+their concern). -/
